@@ -39,6 +39,9 @@ type Case struct {
 	Filled    string `json:"filled"` // the template this request was built from ("" = neighbour / random)
 	Host      string `json:"host,omitempty"`
 	Scheme    string `json:"scheme,omitempty"` // of the request URL under an absolute server ("" = http)
+	// PreMethod: the same URL is routed first under this method; the route returned then is looked at
+	// again after the judged call (a returned route is the caller's)
+	PreMethod string `json:"pre_method,omitempty"`
 }
 
 // absServer: the scheme://host combinations an absolute server declares (through its variables' enums)
@@ -282,7 +285,23 @@ func check(c Case) (o h.Outcome) {
 	var route *routers.Route
 	var params map[string]string
 	var ferr error
+	var earlier *routers.Route
+	var earlierOp *openapi3.Operation
+	if c.PreMethod != "" {
+		pc := c
+		pc.Method = c.PreMethod
+		if !o.Guarded("FindRoute(earlier)", func() { earlier, _, _ = router.FindRoute(request(pc)) }) {
+			return
+		}
+		if earlier != nil {
+			earlierOp = earlier.Operation
+		}
+	}
 	if !o.Guarded("FindRoute", func() { route, params, ferr = router.FindRoute(request(c)) }) {
+		return
+	}
+	if earlier != nil && (earlier.Method != c.PreMethod || earlier.Operation != earlierOp) {
+		o.Fail("earlier-route-changed:"+c.Router, "the route returned for %s %s was %s with its operation; after routing %s %s it says %s (operation changed: %v)", c.PreMethod, c.Path, c.PreMethod, c.Method, c.Path, earlier.Method, earlier.Operation != earlierOp)
 		return
 	}
 	ms := refMatches(c)
@@ -621,7 +640,14 @@ func gen(t *rapid.T) Case {
 		fresh.Path = baseOf(c.Server) + fill(tp.Path, func(int) string { return "v" })
 	}
 	reqs = append(reqs, fresh)
-	return reqs[rapid.IntRange(0, len(reqs)-1).Draw(t, "req")]
+	out := reqs[rapid.IntRange(0, len(reqs)-1).Draw(t, "req")]
+	if rapid.IntRange(0, 2).Draw(t, "premethod") == 0 {
+		out.PreMethod = rapid.SampledFrom([]string{"GET", "POST", "PUT", "DELETE"}).Draw(t, "premethodv")
+		if out.PreMethod == out.Method {
+			out.PreMethod = ""
+		}
+	}
+	return out
 }
 
 var _ = json.Marshal
